@@ -48,6 +48,12 @@ def _eval_flag(v, env, sizes):
             return all(vals) if k == "and" else any(vals)
         if k == "empty" and q[1] in sizes:
             return sizes[q[1]] == 0
+        if k == "empty" and isinstance(q[1], tuple) and q[1][:1] == ("part",):
+            # a partition without any layer (the strict partition of the empty base)
+            pe = env.get(("empty", q[1]))
+            if pe is None:
+                raise KeyError(("empty", q[1]))
+            return pe
         if k == "empty" and isinstance(q[1], tuple) and q[1][:1] == ("at",):
             raise WrongLayer(q[1])
         if k == "cmp" and q[1] == "==" and len(q) == 4:
@@ -115,11 +121,16 @@ def flags(rep, ex: Explorer):
                 env0 = {k: v for k, v in p.decisions}
                 lb, lc = _last(b.pid), (_last(c.pid) if c is not None else None)
                 n += 1
-                free = [a for a in ([("partfalse", ("part", b.pid))] + ([("partfalse", ("part", c.pid))] if c is not None else []) + ([("factsok",)] if uses_facts else [])) if a not in env0]
+                parts = [("part", b.pid)] + ([("part", c.pid)] if c is not None else [])
+                free = [a for a in ([("partfalse", pv_) for pv_ in parts] + [("empty", pv_) for pv_ in parts] + ([("factsok",)] if uses_facts else [])) if a not in env0]
                 import itertools
                 for vals in itertools.product((False, True), repeat=len(free)):
                     env = dict(env0)
                     env.update(zip(free, vals))
+                    # a partition without layers exists only in strict mode (the extended one always ends with the infinity
+                    # layer) and is not the verdict False
+                    if any(env[("empty", pv_)] and (extended or env[("partfalse", pv_)]) for pv_ in parts):
+                        continue
                     pfb = env[("partfalse", ("part", b.pid))]
                     pfc = env[("partfalse", ("part", c.pid))] if c is not None else None
                     from .. import depth as _depth
